@@ -226,4 +226,138 @@ example : mnemonic (bytesOf "ADDS") = some (.add true 0 0 (.imm 0)) ∧
   refine ⟨by decide, ⟨fun h => by simp [evaluated] at h, fun h => by simp [evaluated] at h,
     fun _ => ⟨by decide, by decide, by decide⟩, trivial⟩, by decide, rfl, by decide⟩
 
+/-! ## program TEXT (canonical spelling of the statement) -/
+
+/-- the statements in front of the instruction, as (directive name, operands) -/
+def preStmts (A : Nat) (defs : List (Bytes × Arg)) : List (Bytes × List Arg) :=
+  (bytesOf "addr", [.const A]) :: defs.map fun d => (bytesOf "const", [.ident d.1, d.2])
+
+/-- the program text `.addr <A>;⏎ .const <n>, <v>;⏎ … <NAME a, b, c;>` with every statement in the concrete syntax
+`Show.render` (mnemonic and names as given — any letter case, any alias —, decimal integers, `[x + y]`, `{a, b}`) -/
+def progText (A : Nat) (defs : List (Bytes × Arg)) (name : Bytes) (args : List Arg) : Bytes :=
+  ((preStmts A defs).map fun p => bytesOf "." ++ Show.render p ++ [10]).flatten ++ Show.render (name, args)
+
+/-- C04t.c  **The tokenizer and the parser read the program text as the program** (`_partial` for the framing lemma, see
+the header: only statements whose operands are names, non-negative decimal integers, `[x + y]` and `{…}` of those
+(`Show.Opnd`), in the spacing of `Show.render`; `Lex.tokens_pieces`, C09 `Parse.all_of_vals`). -/
+theorem parseFile_progText_partial (A : Nat) (hA : A < 4294967296) (defs : List (Bytes × Arg))
+    (hdefs : ∀ d ∈ defs, Lex.identOk d.1 = true ∧ Show.Opnd d.2) (name : Bytes) (hn : Lex.identOk name = true)
+    (args : List Arg) (hargs : ∀ x ∈ args, Show.Opnd x) :
+    ∃ els, Asm.parseFile (progText A defs name args) = .ok (els, none) ∧
+      els.map (·.val) = progVals A defs name (Args.ofList args) := by
+  have hpre : ∀ p ∈ preStmts A defs, Lex.identOk p.1 = true ∧ ∀ x ∈ p.2, Show.Opnd x := by
+    intro p hp
+    simp only [preStmts, List.mem_cons, List.mem_map] at hp
+    rcases hp with rfl | ⟨d, hd, rfl⟩
+    · refine ⟨by dsimp only; decide, ?_⟩
+      intro x hx; simp at hx; subst hx
+      exact Show.opnd_const _ ⟨by omega, by simp [i64Max]; omega⟩
+    · refine ⟨by dsimp only; decide, ?_⟩
+      intro x hx; simp at hx
+      rcases hx with rfl | rfl
+      · exact Show.opnd_ident _ (hdefs d hd).1
+      · exact (hdefs d hd).2
+  let pieces : List Lex.Piece := ((preStmts A defs).map fun p => Show.dirPieces p ++ [Show.nl]).flatten ++ Show.stmtPieces (name, args)
+  let vals : List ElemVal := (preStmts A defs).map (fun p => ElemVal.directive p.1 (Args.ofList p.2)) ++
+    [.instruction name (Args.ofList args)]
+  have hv : Lex.Valid pieces none := Show.valid_flat _ hpre _ none (Show.valid_stmt (name, args) hn hargs none)
+  have hb : Lex.pbytes pieces = progText A defs name args := by
+    simp only [pieces, progText, Lex.pbytes_append, Show.pbytes_flat _ (fun p hp => (hpre p hp).2), Show.pbytes_stmt (name, args) hargs]
+  have hvals : (Lex.lexed (1, 1) pieces).map (·.val) = (vals.map Render.elemVal).flatten := by
+    rw [Lex.lexed_vals]
+    simp only [pieces, vals, Lex.tokVals_append, Show.tokVals_flat _ (fun p hp => (hpre p hp).2), Show.tokVals_stmt (name, args) hargs,
+      List.map_append, List.flatten_append]
+    simp
+  have hwf : ∀ ev ∈ vals, ev.wf := by
+    intro ev hev
+    simp only [vals, List.mem_append, List.mem_map, List.mem_singleton] at hev
+    rcases hev with ⟨p, hp, rfl⟩ | rfl
+    · exact Show.dir_wf p (hpre p hp).1 (hpre p hp).2
+    · exact Show.stmt_wf (name, args) hn hargs
+  have hlex := Lex.tokens_pieces _ hv
+  rw [hb] at hlex
+  obtain ⟨els, hall, hels⟩ := Parse.all_of_vals vals hwf _ hvals
+    (Pos.adv (1, 1) (progText A defs name args)).1 (Pos.adv (1, 1) (progText A defs name args)).2
+  refine ⟨els, by simp [Asm.parseFile, hlex, hall], ?_⟩
+  rw [hels]
+  simp [vals, progVals, preStmts, constStmt, List.map_map, Function.comp_def]
+
+/-- C04t.d  **Closed on text, success**: for every statement in the canonical concrete syntax — mnemonic in any letter
+case, operands names / decimal integers / `[x + y]` / `{…}` —, in the program TEXT `progText A defs name args`: if the
+definitions build `tbl`, the statement means `i`, `i` fits and is encodable and fits below 2^32, then `Asm.run` on that
+text succeeds without a diagnostic and places exactly the encoding of `i` at `A`. -/
+theorem run_text (fs : Bytes → Option Bytes) (main : Bytes) (A : Nat) (defs : List (Bytes × Arg))
+    (hdefsok : ∀ d ∈ defs, Lex.identOk d.1 = true ∧ Show.Opnd d.2) (name : Bytes) (hn : Lex.identOk name = true)
+    (args : List Arg) (hargs : ∀ x ∈ args, Show.Opnd x) (hfs : fs main = some (progText A defs name args))
+    (tbl : Asm.Table) (hdefs : defsTable defs [] = some tbl)
+    (i : Instr) (hmeans : means (tabOf tbl) A name args = some i) (hwf : i.wf)
+    (hws : List Nat) (he : Codec.encode i = .ok hws) (hfit : A + 2 * hws.length ≤ 4294967296) :
+    Asm.run fs main = .done ⟨true, none, true, [], [(A, (Codec.toBytes hws).map (·.toUInt8))]⟩ ∧
+    Arm.decode hws = some i := by
+  have hlen := (Codec.enc_len i hws he hwf).1
+  obtain ⟨els, hp, hels⟩ := parseFile_progText_partial A (by omega) defs hdefsok name hn args hargs
+  exact run_defs_stmt fs main _ hfs els hp A defs name (Args.ofList args) hels tbl hdefs i
+    (by rw [Show.toList_ofList]; exact hmeans) hwf hws he hfit
+
+/-- C04t.e  **Closed on text, diagnosed**: the same program text with a statement that has no encodable meaning: `Asm.run`
+does not succeed, records at least one diagnostic, and every diagnostic is in file `main` at the line and column of one
+and the same statement element — the instruction statement (whose position, by C12, is that of its first token). -/
+theorem run_text_diag (fs : Bytes → Option Bytes) (main : Bytes) (A : Nat) (hA : A < 4294967296) (defs : List (Bytes × Arg))
+    (hdefsok : ∀ d ∈ defs, Lex.identOk d.1 = true ∧ Show.Opnd d.2) (name : Bytes) (hn : Lex.identOk name = true)
+    (args : List Arg) (hargs : ∀ x ∈ args, Show.Opnd x) (hfs : fs main = some (progText A defs name args))
+    (tbl : Asm.Table) (hdefs : defsTable defs [] = some tbl)
+    (t : Instr) (hm : mnemonic name = some t) (hw : wellFormed (tabOf tbl) (sig t) args)
+    (hq : ∀ vs, denoteAll (tabOf tbl) (sig t) args = some vs → ¬ svQuirk t vs)
+    (hno : ∀ i hws, ¬ (means (tabOf tbl) A name args = some i ∧ i.wf ∧ Codec.encode i = .ok hws)) :
+    ∃ els el o, Asm.parseFile (progText A defs name args) = .ok (els, none) ∧ el ∈ els ∧
+      el.val = .instruction name (Args.ofList args) ∧ Asm.run fs main = .done o ∧ o.success = false ∧ o.diags ≠ [] ∧
+      ∀ d ∈ o.diags, d.file = main ∧ d.line = el.line ∧ d.col = el.col := by
+  obtain ⟨els, hp, hels⟩ := parseFile_progText_partial A hA defs hdefsok name hn args hargs
+  obtain ⟨el, o, h1, h2, h3⟩ := run_defs_stmt_diag fs main _ hfs els hp A hA defs name (Args.ofList args) hels tbl hdefs t hm
+    (by rw [Show.toList_ofList]; exact hw) (by rw [Show.toList_ofList]; exact hq) (by rw [Show.toList_ofList]; exact hno)
+  exact ⟨els, el, o, hp, h1, h2, h3⟩
+
+/-- non-vacuity on TEXT: the program text of `ldr r0, [4 + sp];` at 0 and of `.const label, 536871168;` + `B label;` -/
+example : progText 0 [] (bytesOf "ldr") [.ident (bytesOf "r0"), .addr (.bin .add (.const 4) (.ident (bytesOf "sp")))] =
+    bytesOf ".addr 0;\nldr r0, [4 + sp];" := by decide
+example : progText 536871424 [(bytesOf "label", .const 536871168)] (bytesOf "B") [.ident (bytesOf "label")] =
+    bytesOf ".addr 536871424;\n.const label, 536871168;\nB label;" := by decide
+example : Show.Opnd (.addr (.bin .add (.const 4) (.ident (bytesOf "sp")))) ∧ Lex.identOk (bytesOf "ldr") = true :=
+  ⟨.mem (.const 4 (by decide) (by decide)) (.ident _ (by decide)), by decide⟩
+
+/-- non-vacuity, end to end on TEXT: the file `.addr 0;⏎ldr r0, [4 + sp];` assembles to `01 98` at 0 (lower-case mnemonic,
+alias `sp`, offset written first), and `.addr 0;⏎ADDS R1, R1, 300;` does not succeed and is diagnosed -/
+example : Asm.run (fun _ => some (bytesOf ".addr 0;\nldr r0, [4 + sp];")) [] =
+    .done ⟨true, none, true, [], [(0, (Codec.toBytes [0x9801]).map (·.toUInt8))]⟩ := by
+  have ht : progText 0 [] (bytesOf "ldr") [.ident (bytesOf "r0"), .addr (.bin .add (.const 4) (.ident (bytesOf "sp")))] =
+      bytesOf ".addr 0;\nldr r0, [4 + sp];" := by decide
+  refine (run_text (fun _ => some (bytesOf ".addr 0;\nldr r0, [4 + sp];")) [] 0 [] (by simp) (bytesOf "ldr") (by decide)
+    [.ident (bytesOf "r0"), .addr (.bin .add (.const 4) (.ident (bytesOf "sp")))] ?_ (by rw [ht]) [] rfl
+    (.ldr 0 13 (.imm 4)) (by decide) (by decide) [0x9801] rfl (by decide)).1
+  intro x hx
+  simp only [List.mem_cons, List.not_mem_nil, or_false] at hx
+  rcases hx with rfl | rfl
+  · exact .atom (.ident _ (by decide))
+  · exact .mem (.const 4 (by decide) (by decide)) (.ident _ (by decide))
+
+example : ∃ o, Asm.run (fun _ => some (bytesOf ".addr 0;\nADDS R1, R1, 300;")) [] = .done o ∧ o.success = false ∧ o.diags ≠ [] := by
+  have ht : progText 0 [] (bytesOf "ADDS") [.ident (bytesOf "R1"), .ident (bytesOf "R1"), .const 300] =
+      bytesOf ".addr 0;\nADDS R1, R1, 300;" := by decide
+  have hargs : ∀ x ∈ [Arg.ident (bytesOf "R1"), .ident (bytesOf "R1"), .const 300], Show.Opnd x := by
+    intro x hx
+    simp only [List.mem_cons, List.not_mem_nil, or_false] at hx
+    rcases hx with rfl | rfl | rfl
+    · exact .atom (.ident _ (by decide))
+    · exact .atom (.ident _ (by decide))
+    · exact .atom (.const 300 (by decide) (by decide))
+  obtain ⟨els, el, o, _, _, _, h1, h2, h3, _⟩ := run_text_diag (fun _ => some (bytesOf ".addr 0;\nADDS R1, R1, 300;")) [] 0 (by decide) []
+    (by simp) (bytesOf "ADDS") (by decide) _ hargs (by rw [ht]) [] rfl (.add true 0 0 (.imm 0)) (by decide)
+    ⟨fun h => by simp [evaluated] at h, fun h => by simp [evaluated] at h, fun _ => ⟨by decide, by decide, by decide⟩, trivial⟩
+    (by intro vs hvs hq; obtain ⟨hh, _⟩ := hq; rcases hh with h | h | h <;> cases h)
+    (by
+      intro i hws ⟨hmn, _, he⟩
+      have : means (tabOf []) 0 (bytesOf "ADDS") [.ident (bytesOf "R1"), .ident (bytesOf "R1"), .const 300] = some (.add true 1 1 (.imm 300)) := by decide
+      rw [this] at hmn; cases hmn; cases he)
+  exact ⟨o, h1, h2, h3⟩
+
 end Trion.C04
